@@ -176,14 +176,32 @@ def udp_histories(ch, hooks):
                                         "expected a session after %d transmissions" % (3 + len(fault))})
 
 
-def replay(ch, build, path):
+def replay(ch, build, path, hooks=None):
+    """run the recorded scenario again on the current tree: the transcript of the recorded step is printed; with the
+    property's per-step predicates (hooks) and the model tie the verdict is re-evaluated - exit 0 if nothing fails now"""
     import json
     r = json.load(open(path))
     d = r["detail"]
+    prop = r.get("property") or ch.prop
     if "scenario" not in d:
         print("replay file carries no scenario"); return 1
-    out = conn.run_scenarios([d["scenario"]])[0]
+    scn = d["scenario"]
+    out = conn.run_scenarios([scn])[0]
     k = d.get("step_index", 0)
-    print(json.dumps(out["steps"][k], indent=1)[:3000])
-    print("VIOLATION property=C10 replay=%s" % path)
-    return 1
+    if k < len(out["steps"]):
+        print(json.dumps(out["steps"][k], indent=1)[:3000])
+    if hooks is None and prop == "C10":
+        hooks = (hook,)
+    if hooks is None:
+        # the property's predicate is not a per-step one: the transcript above is the replay; the verdict is the recorded one
+        print("VIOLATION property=%s replay=%s" % (prop, path))
+        return 1
+    hist.replay(ch, [scn], [out], hooks, prop.lower())
+    bad = ch.violations or ch.corr_breaks
+    for desc, detail in (ch.violations + ch.corr_breaks)[:3]:
+        print("still failing:", json.dumps(desc), (detail.get("what") or detail.get("why") or "")[:300] if isinstance(detail, dict) else "")
+    if bad:
+        print("VIOLATION property=%s replay=%s" % (prop, path))
+        return 1
+    print("not reproduced on the current tree: every step of the recorded scenario satisfies the predicate and the model tie")
+    return 0
